@@ -281,7 +281,7 @@ TOKENIZER_DOMAIN_EXCLUDES = (b'<!', b'<?php', b'\xef\xbb\xbf', b'&')
 def xml_in_model_domain(label, d):
     """the model's tokenizer covers plain well-formed element markup; DOCTYPE, comments, CDATA, PIs,
     BOM, foreign encodings, references other than the five predefined ones handled by the writer: expat only"""
-    if label.startswith(('doc-', 'bytes', 'prefix', 'writer-bytes', 'writer-prefix')):
+    if label.startswith(('doc-', 'bytes', 'prefix', 'writer-bytes', 'writer-prefix', 'corpus')):
         return False
     if label.startswith(('attr-ctrl', 'attr-dup', 'el-text', 'el-unclosed')):
         return False
@@ -563,7 +563,7 @@ def run_part(ctx):
     # ---- XML ----------------------------------------------------------------------------------------
     inputs, probes = corpus('xml')
     labels = {}
-    nbase = 7 if quick else 80
+    nbase = 7 if quick else 24
     for k in range(nbase):
         root = gen_xml(rng, change=(k % 5 == 4))
         data = ser_doc(root)
@@ -607,8 +607,8 @@ def run_part(ctx):
             predicted = m.startswith('ub:') or (aflag == '1' and m.startswith('dbg:'))
             if aflag == '0':
                 ctx.count('xmlmon:' + m.split(' ')[0])
-            if m == 'tokerr':
-                continue      # outside the tokenizer's domain: no prediction
+            if m == 'tokerr' or not (xml_in_model_domain(lab, d) or lab in ('prefix', 'writer-prefix') or lab.startswith('corpus')):
+                continue      # outside the tokenizer's domain (expat validates UTF-8, references, ...): no prediction
             happened = crash is not None or (out is not None and out.startswith('OOB:'))
             if predicted != happened:
                 nmis += 1
@@ -624,7 +624,7 @@ def run_part(ctx):
 
     # ---- OPL ----------------------------------------------------------------------------------------
     inputs, probes = corpus('opl')
-    nbase = 5 if quick else 60
+    nbase = 5 if quick else 24
     for k in range(nbase):
         lines = gen_opl(rng)
         data = ser_opl(lines)
